@@ -168,6 +168,19 @@ def inputs(ctx):
         if specs:
             ins.append({"id": "r%d" % k, "caps": _caps(rng, specs, rng.choice(["tight", "plus1", "sparse"]),
                                                       rng.choice(["tight", "late"]))})
+    # the letters of the basic CEA-608 table that are not ASCII (they have codes of their own and read
+    # back as themselves), and captions late in the day
+    for lines in (["ni\u00f1o caf\u00e9"], ["acci\u00f3n \u00d1and\u00fa", "gar\u00e7on \u00e1gil s\u00ed"], ["\u00e1\u00e9\u00ed\u00f3\u00fa\u00e7\u00d1\u00f1"]):
+        for spacing in ("tight", "sparse"):
+            ins.append({"id": "nb%d" % n, "caps": _caps(rng, [lines, ["plain next"]], spacing, "late")})
+            n += 1
+    for base_s in (82_800, 86_340, 86_500, 90_000):      # 23:00:00, 23:59:00, and past 24 hours (hours keep counting)
+        caps = _caps(rng, [["late one"], ["late two"]], "sparse", "late")
+        for c in caps:
+            c["s"] += base_s * 1_000_000
+            c["e"] += base_s * 1_000_000
+        ins.append({"id": "nb%d" % n, "caps": caps})
+        n += 1
     # every fourth input once more with a writer object that has written another document before
     for i in list(ins)[::4]:
         ins.append(dict(i, id=i["id"] + "p", prev=True))
